@@ -112,6 +112,22 @@ def oracle(case, impl):
         return [("crash", "routing case failed to run: " + impl[:200])]
     if toks[0] in ("c03multi", "c03http"):
         return oracle_multi(toks, p, case)
+    if toks[0] == "c03start":
+        # what an endpoint of this kind serves once started: with an allow-list exactly the table entries it names, nothing else
+        names, pos = parse_names(toks, 2)
+        allow, _ = parse_names(toks, pos)
+        if p[0] != "started":
+            return []
+        served = [int(x) for x in p[2:2 + int(p[1])]]
+        out = []
+        if allow:
+            extra = [t for t in served if t >= len(names) or names[t] not in allow]
+            if extra:
+                out.append(("exposed;start=" + toks[1], "a %s endpoint with the allow-list %r serves channels that are not on it: %r" % (toks[1], allow, [names[t] for t in extra if t < len(names)])))
+            missing = [a for a in allow if a in names and names.index(a) not in served]
+            if missing:
+                out.append(("refused-configured;start=" + toks[1], "a %s endpoint does not serve %r although it is configured and on its allow-list" % (toks[1], missing)))
+        return out
     if toks[0] != "c03":
         return []
     names, pos = parse_names(toks, 1)
